@@ -47,6 +47,7 @@ bool canaries_ok(const Buf &b);
 void set_readonly(const Buf &b);
 void set_readwrite(const Buf &b);
 void quarantine(const Buf &b); // PROT_NONE until release_all
+void retire(const Buf &b);     // quarantine + give the physical pages back (long call histories)
 void release_all();
 size_t live_buffers();
 
